@@ -272,6 +272,77 @@ def plan_c09(tier, seed):
                         "smart_pointers": 300})
 
 
+MUTEX_KINDS = ["direct_storage+monitor-mutex", "reference_storage+monitor-mutex", "any_reference+monitor-mutex", "direct_storage+std::mutex"]
+REAL_TS_KINDS = ["thread_safe<pool<node>>", "thread_safe<pool<small>>", "thread_safe<coll<node,log2>>", "thread_safe<stack>"]
+STATELESS_KINDS = ["heap_allocator", "malloc_allocator", "new_allocator", "virtual_memory_allocator"]
+EXIT_KINDS = ["exit/workers-only", "exit/main-only", "exit/main-and-workers", "exit/workers-with-initializers", "exit/nothing-used",
+              "exit/main-initializer-then-workers"]
+
+
+def plan_c13(tier, seed):
+    q = tier == "quick"
+    jobs = []
+    cfgs = ["rwd"] if q else ["rwd", "dbg"]
+    n = _scale(tier, 6, 60)
+    ops = _scale(tier, 3000, 6000)
+    for cfg in cfgs:
+        for fl in ("tsan", "plain"):
+            extra = ["--maxthreads", "8" if q else "16"]
+            for k in MUTEX_KINDS:
+                jobs += [Job("h_thread", cfg, fl, "mutex", k, c, ops=ops, extra=extra, cpu=900) for c in chunks(n, 3 if q else 6)]
+        for k in REAL_TS_KINDS:
+            jobs += [Job("h_thread", cfg, "tsan", "real", k, c, ops=ops, cpu=900) for c in chunks(n, 3 if q else 6)]
+        for k in STATELESS_KINDS:
+            jobs += [Job("h_thread", cfg, "tsan", "stateless", k, c, ops=ops // 2, cpu=900) for c in chunks(n, 3 if q else 6)]
+    return dict(jobs=jobs, level="exploration",
+                rule="case = (configuration, storage policy x mutex type | real allocator | stateless allocator, sanitizer, index): 2..8 (thorough 16) "
+                     "threads issue a seeded mix of every forwarding member of allocator_storage (throwing, composable, max_* queries) and the lock() "
+                     "proxy. (mutex) an instrumented allocator checks on every entry that the instrumented mutex is held by the calling thread and "
+                     "that no other thread is inside, then yields / sleeps / spins inside the call; an unsynchronised counter in the allocator gives "
+                     "ThreadSanitizer something to see. (real) memory_pool / small pool / collection / stack behind std::mutex with per-thread "
+                     "byte patterns under ThreadSanitizer. (stateless) heap / malloc / new / virtual memory allocators bare and wrapped: no lock may "
+                     "be taken. non-trivial = every completed multi-threaded case; distinct = FNV-1a of kind, configuration and thread/operation "
+                     "counts. Evidence lists entries per member and contended acquisitions.",
+                assumptions=ASSUME_COMMON + ["schedules are those the OS produced plus the delays injected inside the wrapped allocator; mutex types: "
+                                             "std::mutex and the instrumented one"],
+                minima={"cases": 40, "distinct_nontrivial": 20, "monitored_entries": 200000, "contended_acquisitions": 2000,
+                        "entries_max_node_size": 5000, "entries_try_deallocate_array": 2000, "real_allocator_ops": 50000, "stateless_ops": 50000})
+
+
+def plan_c14(tier, seed):
+    q = tier == "quick"
+    jobs = []
+    cfgs = ["rwd"] if q else ["rwd", "dbg"]
+    ns = _scale(tier, 2000, 100000)
+    for cfg in cfgs:
+        jobs += [Job("h_thread", cfg, "plain", "sched", "scheduled", c, extra=["--maxthreads", "3" if q else "4"], cpu=900)
+                 for c in chunks(ns, 250 if q else 5000)]
+        jobs += [Job("h_thread", cfg, "tsan", "sched", "scheduled", c, extra=["--maxthreads", "3"], cpu=900) for c in chunks(ns // 10, 100 if q else 1000)]
+        for k in ("sequential-threads", "concurrent-threads"):
+            jobs += [Job("h_thread", cfg, "tsan", "free", k, c, cpu=900) for c in chunks(_scale(tier, 40, 600), 10 if q else 60)]
+            jobs += [Job("h_thread", cfg, "plain", "free", k, c, cpu=900) for c in chunks(_scale(tier, 40, 600), 10 if q else 60)]
+        for k in EXIT_KINDS:
+            jobs += [Job("h_thread", cfg, "plain", "exit", k, c, cpu=300) for c in chunks(_scale(tier, 6, 60), 6 if q else 20)]
+    # (a) scope: nested temporary_allocator scopes leave the stack as it was (replay equality), in h_low
+    cfgs2 = ["rwd", "dbg"] if q else T_CFGS
+    jobs += low_jobs(cfgs2, _scale(tier, 60, 1000), 300, _scale(tier, 30, 100), kinds=TEMP_KINDS)
+    return dict(jobs=jobs, level="exploration",
+                rule="(sched) 2..3 (thorough 4) threads run seeded programs of initializer scopes / get_temporary_stack() / nested temporary_allocators; "
+                     "a token scheduler installed through the guarded hook parks every thread at each of the 12 scheduling points of the stack list "
+                     "(and through thread exit) and lets a PRNG choose who runs next; every action is logged call-before / return-after with one "
+                     "logical clock; offline checker: no stack is obtained by a thread while another live thread holds it, and the number of stack "
+                     "objects never exceeds the peak number of live threads (second wave of threads must reuse). (free) the same programs free-"
+                     "running, sequential and concurrent, under ThreadSanitizer. (exit) child processes (workers only / main only / both / with "
+                     "initializers / nothing used) whose exit must produce no leak report from the library's own handler. (scope) nested "
+                     "temporary_allocator scopes with replay equality of the first request after each scope. non-trivial = every completed case; "
+                     "distinct = FNV-1a including the interleaving's point sequence for scheduled runs. No liveness claim; temporary stack mode 1 "
+                     "does not build with the installed compilers (DESIGN.md section 3).",
+                assumptions=ASSUME_COMMON + ["interleavings are enumerated at the guarded scheduling points only; between them the code runs unpreempted "
+                                             "under the scheduler (free-running runs under ThreadSanitizer cover the rest)"],
+                minima={"cases": 500, "distinct_nontrivial": 400, "distinct_interleavings": 1500, "scheduling_points": 50000, "events_checked": 20000,
+                        "exit_children": 30, "scopes": 2000, "replayed_requests": 500})
+
+
 JOINT_KINDS = ["J<1/1,4/4>", "J<3/1,16/16>", "J<16/16,2/2>", "J<24/8,12/4>", "J<8/8,32/16>", "J<6/2,5/1>"]
 
 
@@ -486,5 +557,7 @@ PLANS = {
     "C11": plan_c11,
     "C12": plan_c12,
     "C20": plan_c20,
+    "C13": plan_c13,
+    "C14": plan_c14,
     "C15": plan_c15,
 }
